@@ -189,48 +189,143 @@ def _any_is_other(prog, body, node):
     return False
 
 
-def r11_3(ctx):
-    for name, enc_fn in (("escaped_expectation_ascii", "escaped_printable_ascii"), ("escaped_expectation_unicode", "escaped_printable_unicode")):
-        f = ctx.prog.fn(name)
-        o = Origins(f)
-        sel = None
-        for bb, t in f.calls():
-            if method_name(callee_name(t, resolved=False) or "") in ("PartialEq::eq", "PartialEq::ne"):
-                a, b = peel(o.operand(t["args"][0])), peel(o.operand(t["args"][1]))
-                nxt = t["target"]
-                be = bool_edges(f, nxt)
-                if be:
-                    sel = (bb, nxt, be, a, b, method_name(callee_name(t, resolved=False)))
-        if sel is None:
-            raise AnchorError("%s: no `encoded == escaped` comparison" % name)
+def _expand(node, bind):
+    """nodes of `node` with `arg` leaves expanded through `bind` ({arg local: caller's tree})"""
+    for n in node.walk():
+        yield n
+        if n.kind == "arg" and bind and n.a in bind:
+            yield from bind[n.a].walk()
+
+
+def _has(node, bind, *methods):
+    return any(n.kind == "call" and method_name(n.a) in methods for n in _expand(node, bind))
+
+
+def _has_fn(node, bind, suffix):
+    return any(n.kind == "call" and n.a.endswith(suffix) for n in _expand(node, bind))
+
+
+def _marker_results(ctx, f, o, name, decide_bb, marked_edge, plain_edge, bind):
+    """the ` (escaped)` literal is appended exactly on `marked_edge` of the decision in `decide_bb`"""
+    marked = []
+    for d in f.defs.get(0, []):
+        tree = o._def(d, 0, ())
+        try:
+            ps = pieces(tree)
+            lit = "".join(p for p in ps if isinstance(p, str))
+        except FmtError:
+            lit = None
+        if lit is not None and "(escaped)" in lit:
+            marked.append(d[0])
+            good = d[0] in f.reachable(marked_edge) and d[0] not in f.reachable(0, removed_edges=[(decide_bb, marked_edge)])
+            ctx.check(good and lit == " (escaped)" and ps[-1] == " (escaped)", name + ":marker-edge", f.loc(d[0]),
+                      "` (escaped)` is appended exactly when the rendering differs from the raw text",
+                      "` (escaped)` is appended on the wrong edge / with a different literal (%r)" % lit)
+        else:
+            good = d[0] in f.reachable(plain_edge) and d[0] not in f.reachable(0, removed_edges=[(decide_bb, plain_edge)])
+            ctx.check(good, name + ":plain-edge", f.loc(d[0]), "the unmarked text is returned only when rendering == raw text")
+    ctx.check(len(marked) == 1, name + ":marker-count", f.where(), "exactly one marked result")
+
+
+def _invalid_utf8_is_unprintable(prog, h):
+    """has_unprintable_unicode answers `true` for input that is not UTF-8 (explicit Err edge or unwrap_or(true)); anything built on
+    a lossy conversion cannot"""
+    o = Origins(h)
+    ret = o.local(0)
+    if any(n.kind == "call" and method_name(n.a) in ("String::from_utf8_lossy",) for n in ret.walk()):
+        return False, "it classifies the lossy conversion of the bytes"
+    for n in ret.walk():
+        if n.kind == "call" and method_name(n.a) in ("Result::unwrap_or", "Result::map_or") and len(n.kids) >= 2:
+            c = n.kids[1]
+            strict = any(k.kind == "call" and method_name(k.a) in ("String::from_utf8", "str::from_utf8", "core::str::from_utf8", "from_utf8") for k in n.kids[0].walk())
+            if c.kind == "const" and c.a.as_int() == 1 and strict:
+                return True, "unwrap_or(true) on the strict conversion"
+            return False, "the fallback for invalid UTF-8 is %s" % c.show()
+    # explicit match: the Err edge of the strict conversion returns const true
+    from ..cfgq import variant_edges, switches, explore, place_key
+    for sb, st in switches(h):
+        ve, rv = variant_edges(h, sb)
+        if ve is None or set(ve) != {"Ok", "Err"}:
+            continue
+        pk = place_key(rv["place"])
+        err = set(explore(h, ve["Err"], {pk: "Err"}).keys())
+        vals = set()
+        for d in h.defs.get(0, []):
+            if d[0] in err:
+                t = o._def(d, 0, ())
+                vals.add(t.a.as_int() if t.kind == "const" else None)
+        if vals == {1}:
+            return True, "Err edge returns true"
+        return False, "the Err edge returns %s" % sorted(map(str, vals))
+    return False, "no strict UTF-8 conversion with a `true` fallback found"
+
+
+def _marker_decision(ctx, prog, f, name, enc_fn, has_fn, bind=None, depth=0):
+    o = Origins(f)
+    sel = None
+    for bb, t in f.calls():
+        if method_name(callee_name(t, resolved=False) or "") in ("PartialEq::eq", "PartialEq::ne"):
+            a, b = peel(o.operand(t["args"][0])), peel(o.operand(t["args"][1]))
+            nxt = t["target"]
+            be = bool_edges(f, nxt)
+            if be:
+                sel = (bb, nxt, be, a, b, method_name(callee_name(t, resolved=False)))
+    if sel is not None:
+        # form A: rendering == raw text
         bb, nxt, (t_true, t_false), a, b, m = sel
         sides = [a, b]
-        esc_side = [n for n in sides if n.kind == "call" and n.a.endswith(enc_fn)]
-        raw_side = [n for n in sides if n.has_call("String::from_utf8_lossy")]
-        both_trim = all(n.has_call("BytesNewline::trim_newlines") for n in sides)
+        esc_side = [n for n in sides if _has_fn(n, bind, enc_fn) and not _has(n, bind, "String::from_utf8_lossy")]
+        raw_side = [n for n in sides if _has(n, bind, "String::from_utf8_lossy") and not _has_fn(n, bind, enc_fn)]
+        both_trim = all(_has(n, bind, "BytesNewline::trim_newlines") for n in sides)
         ctx.check(len(esc_side) == 1 and len(raw_side) == 1 and both_trim, name + ":operands", f.loc(bb),
                   "compares %s(trim_newlines(line)) with the lossy text of trim_newlines(line)" % enc_fn,
                   "the marker decision compares %s with %s" % (a.show()[:80], b.show()[:80]))
         eq_edge = t_true if m == "PartialEq::eq" else t_false
         ne_edge = t_false if m == "PartialEq::eq" else t_true
-        marked = []
+        _marker_results(ctx, f, o, name, nxt, ne_edge, eq_edge, bind)
+        return
+    # form B: decided by the mode's has_unprintable predicate on the trimmed line
+    for bb, t in f.calls():
+        if (callee_name(t) or "").endswith(has_fn):
+            be = bool_edges(f, t["target"])
+            if not be:
+                continue
+            arg = o.operand(t["args"][0])
+            ctx.check(_has(arg, bind, "BytesNewline::trim_newlines"), name + ":operands", f.loc(bb),
+                      "%s decides on trim_newlines(line) (the text that is rendered)" % has_fn,
+                      "%s decides on %s, not on the trimmed line that is rendered" % (has_fn, arg.show()[:80]))
+            if has_fn.endswith("unicode"):
+                ok, why = _invalid_utf8_is_unprintable(prog, prog.fn(has_fn))
+                ctx.check(ok, name + ":predicate-exact", prog.fn(has_fn).where(),
+                          "%s is true for every input whose rendering differs from its lossy text, including invalid UTF-8 (%s)" % (has_fn, why),
+                          "%s decides the ` (escaped)` marker of %s but is not true for invalid UTF-8 (%s): such a line is rendered with escapes by the "
+                          "ascii fallback (or, unmarked, as lossy U+FFFD text) and read back as different contents" % (has_fn, name, why))
+            _marker_results(ctx, f, o, name, t["target"], be[0], be[1], bind)
+            return
+    # form C: the decision lives in a crate-local helper that receives the rendering and the trimmed line
+    if depth < 2:
+        from ..interp import Inliner
+        inl = Inliner(prog)
         for d in f.defs.get(0, []):
-            tree = o._def(d, 0, ())
-            try:
-                ps = pieces(tree)
-                lit = "".join(p for p in ps if isinstance(p, str))
-            except FmtError:
-                lit = None
-            if lit is not None and "(escaped)" in lit:
-                marked.append(d[0])
-                good = d[0] in f.reachable(ne_edge) and d[0] not in f.reachable(0, removed_edges=[(nxt, ne_edge)])
-                ctx.check(good and lit == " (escaped)" and ps[-1] == " (escaped)", name + ":marker-edge", f.loc(d[0]),
-                          "` (escaped)` is appended exactly when the rendering differs from the raw text",
-                          "` (escaped)` is appended on the wrong edge / with a different literal (%r)" % lit)
-            else:
-                good = d[0] in f.reachable(eq_edge) and d[0] not in f.reachable(0, removed_edges=[(nxt, eq_edge)])
-                ctx.check(good, name + ":plain-edge", f.loc(d[0]), "the unmarked text is returned only when rendering == raw text")
-        ctx.check(len(marked) == 1, name + ":marker-count", f.where(), "exactly one marked result")
+            tree = peel(o._def(d, 0, ()))
+            cb = inl.local_callee(f, tree) if tree.kind == "call" else None
+            if cb is not None:
+                nb = {}
+                for i, k in enumerate(tree.kids):
+                    kk = k
+                    if bind:
+                        from ..facts import Node
+                        kk = Node("agg", ("bound", None), list(_expand(k, bind)))
+                    nb[i + 1] = kk
+                _marker_decision(ctx, prog, cb, name, enc_fn, has_fn, nb, depth + 1)
+                return
+    raise AnchorError("%s: neither a `rendering == raw text` comparison nor a %s decision found" % (name, has_fn))
+
+
+def r11_3(ctx):
+    for name, enc_fn, has_fn in (("escaped_expectation_ascii", "escaped_printable_ascii", "has_unprintable_ascii"),
+                                 ("escaped_expectation_unicode", "escaped_printable_unicode", "has_unprintable_unicode")):
+        _marker_decision(ctx, ctx.prog, ctx.prog.fn(name), name, enc_fn, has_fn)
 
 
 def r11_4(ctx):
